@@ -278,6 +278,12 @@ def run(fx, chk, tier):
     # ---------------- R6 / R7
     import c01_tables
     c01_tables.run(fx, chk, cg, tw)
+    # ---------------- R8 / R9: the demux half and the quantities stored by the mux half
+    from packs_common import compose
+    chk.rule("R8", "the reader's non-fragmented lookup rules hold (C03 instances: absent-table defaults, count source, table footprints, dimension typing of the lookup arithmetic, purity)")
+    compose(fx, chk, tier, "R8", "C03", ["R-DEFAULT", "R-COUNT", "R-FOOT", "R-UNITS", "R-PURE"], floor=105, what="reader lookup obligations")
+    chk.rule("R9", "the muxer stores into every sample-table field the quantity ISO gives that field (C02 R7 instances, rules/units.py)")
+    compose(fx, chk, tier, "R9", "C02", ["R7"], floor=16, what="muxer dimension obligations")
     return chk.finish(
         "other",
         "Structural necessary conditions of mux->demux fidelity (exactly-once bookkeeping, final flush, traceless rejection, id pairing, table pairing) checked on the MIR of the muxer with dominance and loop membership. "
